@@ -237,8 +237,34 @@ func checkC15(c *Ctx, r *Report) {
 					classified = true
 				}
 				key := "field " + tn + "." + f + " is classified"
+				inferred := ""
+				if !classified {
+					// a field the table does not know is paired in fact when buildConsumerGroup stores a
+					// value derived from it into some field of the persisted record and
+					// restoreGroupState sets it back from that same field
+					for ptyp, fm := range bs {
+						for pfield, vals := range fm {
+							wrote := false
+							for _, v := range vals {
+								if dependsOnField(v, pkgBrokerLib+"."+tn, f) {
+									wrote = true
+								}
+							}
+							if !wrote {
+								continue
+							}
+							for _, v2 := range rs[tn][f] {
+								if dependsOnField(v2, pkgMetaPB+"."+ptyp, pfield) {
+									inferred = ptyp + "." + pfield
+								}
+							}
+						}
+					}
+				}
 				if classified {
 					r.ok("C15.T1", key, "", "")
+				} else if inferred != "" {
+					r.ok("C15.T1", key, "", "paired with "+inferred+" in buildConsumerGroup and restoreGroupState (inferred)")
 				} else {
 					r.viol("C15.T1", key, "", "field is neither in the persistence pairing table nor listed as deliberately unpersisted")
 				}
